@@ -156,6 +156,8 @@ def run_kani(crate, harnesses, timeout_s, jobs=16, extra=None):
         cmd += ["--harness", "%s::%s" % (mod, h) if mod else h]
     cmd += ["--exact"]
     cmd += ["-j", str(jobs), "--output-format", "terse", "--harness-timeout", "%ds" % timeout_s, "--export-json", out_json]
+    if os.environ.get("VERIF_KANI_EXTRA"):
+        cmd += os.environ["VERIF_KANI_EXTRA"].split()
     if extra:
         cmd += extra
     env = dict(os.environ)
